@@ -399,12 +399,13 @@ def vector_modes(cx):
     for name, kind, spec in geometries(cx.quick):
         if kind not in ("mps", "peps", "graph"):
             continue
-        for cplx in (False, True, "single"):
-            if cplx == "single" and name not in ("mps4", "mps5mixed", "peps23", "ring4", "mps3cyc"):
+        # "mixed": a REAL network hit by a COMPLEX operator (the result is complex: no mode may drop the imaginary part)
+        for cplx in (False, True, "single", "mixed"):
+            if cplx in ("single", "mixed") and name not in ("mps4", "mps5mixed", "peps23", "ring4", "mps3cyc"):
                 continue
             # the network and the targets are the same in every chunk: use the selector for them
-            gsel = np.random.default_rng([cx.seed, 77, {False: 0, True: 1, "single": 2}[cplx], sum(map(ord, name))])
-            tn, sites, dims = make(qtn, gsel, kind, spec, bool(cplx))
+            gsel = np.random.default_rng([cx.seed, 77, {False: 0, True: 1, "single": 2, "mixed": 3}[cplx], sum(map(ord, name))])
+            tn, sites, dims = make(qtn, gsel, kind, spec, cplx is True or cplx == "single")
             single = cplx == "single"
             if single:
                 tn.astype_("complex64")
